@@ -244,9 +244,12 @@ impl RetryBudget for TokenBucketBudget {
 
     fn deposit(&self) {
         const SCALE: u64 = 1000;
-        let current = self.tokens.load(Ordering::Relaxed);
-        let new_tokens = (current + SCALE).min(self.max_tokens);
-        self.tokens.store(new_tokens, Ordering::Relaxed);
+        let max_tokens = self.max_tokens;
+        let _ = self
+            .tokens
+            .fetch_update(Ordering::Relaxed, Ordering::Relaxed, |current| {
+                Some((current + SCALE).min(max_tokens))
+            });
     }
 
     fn balance(&self) -> usize {
@@ -326,11 +329,14 @@ impl RetryBudget for AimdBudget {
 
     fn deposit(&self) {
         let current_max = self.limit_controller.limit() as u64;
-        let current = self.tokens.load(Ordering::Relaxed);
+        let deposit_amount = self.deposit_amount;
 
         // Additive increase: add deposit amount, cap at current max
-        let new_tokens = (current + self.deposit_amount).min(current_max);
-        self.tokens.store(new_tokens, Ordering::Relaxed);
+        let _ = self
+            .tokens
+            .fetch_update(Ordering::Relaxed, Ordering::Relaxed, |current| {
+                Some((current + deposit_amount).min(current_max))
+            });
 
         // Also slowly increase the max back toward absolute max via controller
         self.limit_controller.record_success();
